@@ -100,6 +100,9 @@ def shards(tier):
             out.append({'block': blk, 'part': 'close', 'lo': 1, 'hi': 254, 'all_e': 0, 'nm': 6})
         for ea in EA_QUICK:
             out.append({'block': 'FPMult_SP', 'part': 'sums', 'ea': ea, 'nm': 6})
+    # exponent pairs far apart (half range and full range), both tiers
+    for blk in BINARY:
+        out.append({'block': blk, 'part': 'fargaps', 'nm': 6})
     # operand pairs whose exact product / sum lies next to a binade boundary (normalisation switch, rounding carry)
     for blk in ('FPMult_SP', 'FPAdder_SP'):
         out.append({'block': blk, 'part': 'boundary', 'nm': 11})
@@ -123,6 +126,8 @@ def cost(d):
         return _US[d['block']] * 18 * 36 * 4
     if d['part'] == 'boundary':
         return _US[d['block']] * 20000
+    if d['part'] == 'fargaps':
+        return _US[d['block']] * 30 * 36 * 4
     if d['part'] == 'close':
         return _US[d['block']] * (d['hi'] - d['lo'] + 1) * 11 * 5 * 3 * 4 * 2
     return 50 * 8192
@@ -237,6 +242,16 @@ def binary_pairs(d):
         return close_pairs(d)
     if d['part'] == 'boundary':
         return boundary_pairs(d)
+    if d['part'] == 'fargaps':
+        def gen3():
+            seen = set()
+            for ea in (1, 2, 63, 64, 126, 127):
+                for eb in sorted({ea + 126, ea + 127, ea + 128, ea + 129, ea + 190, 253, 254}):
+                    if ea < eb <= 254 and eb - ea > GAP_QUICK and (ea, eb) not in seen:
+                        seen.add((ea, eb))
+                        for p in grid_pairs(ea, [eb], ms):
+                            yield p
+        return gen3()
     raise ValueError(d)
 
 
